@@ -43,6 +43,11 @@ def one(f):
         s = seqs.get(other)
         if s is None:
             continue
+        if len(s) < len(base) and all(a == b or "unknown" in (a, b) or "timeout" in (a, b) for a, b in zip(base, s)):
+            # the other solver gave up part-way (time limit, resource limit): what it did answer agrees
+            res["lines"].append("CROSS %s: %s stopped after %d of %d answers, all of them in agreement" % (os.path.basename(f), other, len(s), len(base)))
+            res["unknown"] += len(base) - len(s)
+            continue
         if len(s) != len(base):
             res["lines"].append("CROSS %s: %s gave %d answers, z3 gave %d" % (os.path.basename(f), other, len(s), len(base)))
             res["disagree"] += 1
